@@ -11,6 +11,7 @@ C13 driver.  Case grammar (one line):
 * model: `Tex.fromExisting` on the encoded file
 * answers: `<width> <height> <depth> <2d|3d> <rgba hex>` | `none` | `panic`
 * tag `kf:bc3-colour-mode`: the texture is in the class `Spec.Bcn.Bc3ConventionsDiffer`
+  (then no `model` field: see `handle`)
 * tag `triv`: no pixels
 A case whose format code is not one of the four formats of the property, or whose payload is
 shorter than the texture needs, is outside the property's quantifier and is rejected (`bad-case`).
@@ -99,11 +100,16 @@ def handle (line : String) : String :=
     let w := c.header.width.toNat
     let h := c.header.height.toNat
     let d := c.header.depth.toNat
+    let inClass := decide (Spec.Bcn.Bc3ConventionsDiffer c.fmt w h d c.payload.toArray)
     let tags :=
-      (if w * h * d = 0 then ["triv"] else []) ++
-      (if decide (Spec.Bcn.Bc3ConventionsDiffer c.fmt w h d c.payload.toArray) then ["kf:bc3-colour-mode"] else [])
+      (if w * h * d = 0 then ["triv"] else []) ++ (if inClass then ["kf:bc3-colour-mode"] else [])
     match Spec.Tex.expected .always4 c.header c.payload with
     | none => bad
-    | some e => answer ("tex " ++ hexFast file) (showDecoded e) tags (some (showModel (Tex.fromExisting file)))
+    | some e =>
+      -- inside the class of the open finding the implementation may show the recorded behaviour
+      -- (a known hit) or the specified one (no alarm): the model of the defective code is not
+      -- a second reference there, so it is not emitted
+      answer ("tex " ++ hexFast file) (showDecoded e) tags
+        (if inClass then none else some (showModel (Tex.fromExisting file)))
 
 end Physis.Driver.C13
